@@ -24,7 +24,7 @@ Pos(t, op) == CHOOSE i \in 1..Len(t.events) : t.events[i].op = op
 Files(t) == IF HasOp(t, "generate") THEN EvOf(t, "generate").files ELSE <<>>
 
 Clause(t) ==
-    LET wf == WellFormed(t.tree, CSetOf(t.gen))
+    LET wf == WellFormedAcc(t.tree, Range(t.registered))      \* registered: the generators this manager has been used with, this call included
         can == PluginCan(t.tree, t.gen) IN
     IF HasOp(t, "verify") /\ EvOf(t, "verify").ok = 2 THEN "exception-escaped-verify"
     ELSE IF HasOp(t, "verify") /\ (EvOf(t, "verify").ok = 1) # wf THEN "verify-verdict"
@@ -47,6 +47,6 @@ Clause(t) ==
 
 TSpec == BInit /\ [][BNext(N, Chunk)]_bvars
 Judge == stage = 2 => PrintT("VERDICT " \o ToJson([id |-> Traces[idx].id, clause |-> Clause(Traces[idx]),
-                                                   wf |-> IF WellFormed(Traces[idx].tree, CSetOf(Traces[idx].gen)) THEN 1 ELSE 0,
+                                                   wf |-> IF WellFormedAcc(Traces[idx].tree, Range(Traces[idx].registered)) THEN 1 ELSE 0,
                                                    fails |-> FailSeq(Traces[idx].tree, CSetOf(Traces[idx].gen))]))
 =============================================================================
